@@ -191,6 +191,89 @@ def _sys_replay_heights(op):
     return rp
 
 
+def h_lazy_polygon_height(ctx):
+    """A lazily constructed polygonal region keeps its (random) height when it is sampled / evaluated."""
+    import shapely.geometry as sg
+    import types
+    from scenic.core.distributions import Range
+    from scenic.core.regions import PolygonalRegion
+    from scenic.core.utils import DefaultIdentityDict
+
+    zdist = Range(2, 4)
+    R = PolygonalRegion(polygon=sg.Polygon([(0, 0), (4, 0), (4, 4), (0, 4)]), z=zdist)
+    z = ctx.real("z", 2, 4)
+    value = DefaultIdentityDict()
+    value[zdist] = z
+    S = R.sampleGiven(value)
+    ctx.check("sampled-lazy-polygon-keeps-its-height", S.z == z, robust=E.sym_or(S.z - z > 0.01, z - S.z > 0.01))
+    ctx.check("sampled-lazy-polygon-keeps-its-shape", S.polygons.equals(R._polygon if R._polygon is not None else S.polygons))
+    from scenic.core.lazy_eval import DelayedArgument, LazilyEvaluable
+
+    zlazy = DelayedArgument({"foo"}, lambda context: context.foo, _internal=True)
+    R2 = PolygonalRegion(polygon=sg.Polygon([(0, 0), (4, 0), (4, 4), (0, 4)]), z=zlazy)
+    E2 = R2.evaluateIn(LazilyEvaluable.makeContext(foo=z))
+    ctx.check("evaluated-lazy-polygon-keeps-its-height", E2.z == z, robust=E.sym_or(E2.z - z > 0.01, z - E2.z > 0.01))
+
+
+def ground_lazy_regions():
+    """Lazily constructed disc / sector / rectangle: sampling rebuilds the region from exactly the sampled parameters."""
+    from scenic.core.distributions import Range
+    from scenic.core.regions import CircularRegion, RectangularRegion, SectorRegion
+    from scenic.core.utils import DefaultIdentityDict
+    from scenic.core.vectors import Vector
+
+    problems, cases = [], 0
+    cx, r, h, a, w, l = Range(0, 1), Range(1, 2), Range(0, 1), Range(1, 2), Range(1, 2), Range(3, 4)
+    val = DefaultIdentityDict()
+    for d, v in ((cx, 0.25), (r, 1.5), (h, 0.75), (a, 1.25), (w, 1.75), (l, 3.5)):
+        val[d] = v
+    center = Vector(cx, 2, 3)
+    val[center] = Vector(0.25, 2, 3)
+    c = CircularRegion(center, r).sampleGiven(val)
+    cases += 1
+    if tuple(c.center) != (0.25, 2, 3) or c.radius != 1.5 or c.z != 3:
+        problems.append(f"CircularRegion sampled as centre {tuple(c.center)} radius {c.radius} z {c.z}")
+    s = SectorRegion(center, r, h, a).sampleGiven(val)
+    cases += 1
+    if tuple(s.center) != (0.25, 2, 3) or (s.radius, s.heading, s.angle, s.z) != (1.5, 0.75, 1.25, 3):
+        problems.append(f"SectorRegion sampled as {tuple(s.center)}, {s.radius}, {s.heading}, {s.angle}, z {s.z}")
+    q = RectangularRegion(center, h, w, l).sampleGiven(val)
+    cases += 1
+    if tuple(q.position) != (0.25, 2, 3) or (q.heading, q.width, q.length, q.z) != (0.75, 1.75, 3.5, 3):
+        problems.append(f"RectangularRegion sampled as {tuple(q.position)}, {q.heading}, {q.width}, {q.length}, z {q.z}")
+    return (not problems), " | ".join(problems), cases
+
+
+def h_footprint_cache(ctx):
+    """PolygonalFootprintRegion.approxBoundFootprint: whatever is cached, the returned prism covers the
+    requested vertical range [centerZ - height/2, centerZ + height/2]."""
+    from scenic.core.regions import PolygonalFootprintRegion
+
+    fp = object.__new__(PolygonalFootprintRegion)
+    made = []
+
+    def boundFootprint(centerZ, height):
+        tok = ("prism", centerZ, height)
+        made.append(tok)
+        return tok
+
+    fp.boundFootprint = boundFootprint
+    if ctx.flag("cache_populated"):
+        pc, ph = ctx.real("cached.centerZ"), ctx.real("cached.height", 0, None)
+        fp._bounded_cache = (pc, ph, ("prism", pc, ph))
+    else:
+        fp._bounded_cache = None
+    cz, h = ctx.real("centerZ"), ctx.real("height", 0, None)
+    ctx.assume(h > 0)
+    got = fp.approxBoundFootprint(cz, h)
+    _, gc, gh = got
+    ctx.check("returned-prism-covers-the-requested-vertical-range",
+              E.sym_and(gc + gh / 2 >= cz + h / 2, gc - gh / 2 <= cz - h / 2),
+              robust=E.sym_or(gc + gh / 2 < cz + h / 2 - 0.01, gc - gh / 2 > cz - h / 2 + 0.01), reused_cache=not made)
+    c2 = fp._bounded_cache
+    ctx.check("cache-describes-the-prism-it-stores", c2 is not None and c2[2][1] is c2[0] and c2[2][2] is c2[1])
+
+
 # ------------------------------------------------------------------ generic dispatch over abstract operands
 def h_dispatch(ctx):
     from scenic.core import regions as R
@@ -255,6 +338,13 @@ def obligations(tier, seed):
                    [R.Region.intersect, R.Region.union, R.Region.difference, R.IntersectionRegion.containsPoint,
                     R.UnionRegion.containsPoint, R.DifferenceRegion.containsPoint], []),
     ]
+    obs.append(Obligation("lazy-polygon-height", h_lazy_polygon_height, "PolygonalRegion.sampleGiven / evaluateInner keep the height",
+                          {"z": "symbolic in [2,4]"}, [R.PolygonalRegion.sampleGiven, R.PolygonalRegion.evaluateInner], []))
+    obs.append(Obligation("lazy-regions-ground", None, "disc / sector / rectangle rebuilt from exactly the sampled parameters (ground)", {}, 
+                          [R.CircularRegion.sampleGiven, R.SectorRegion.sampleGiven, R.RectangularRegion.sampleGiven], [], ground=ground_lazy_regions))
+    obs.append(Obligation("footprint-prism-cache", h_footprint_cache, "approxBoundFootprint: cached or fresh prism covers the requested z range",
+                          {"cache": "arbitrary", "request": "any centre, height>0"}, [R.PolygonalFootprintRegion.approxBoundFootprint],
+                          ["boundFootprint (mesh extrusion): token recording its arguments"]))
     for op in ("intersect", "union", "difference"):
         obs.append(Obligation(f"polygon-{op}-height", h_polygon_heights(op), f"PolygonalRegion.{op} keeps the operands' height",
                               {"polygons": "two concrete overlapping squares", "z": "symbolic, |z|>0.5"},
